@@ -332,7 +332,60 @@ func ruleRefill(p *Prog, r *RuleResult) {
 				}
 				visit(ifi.Cond, 0)
 			}
-			if usesN && usesErr && satisfied {
+			// every exit of the refill loop is decided by the byte count reached or by an error; any other exit
+			// (an alignment shortcut, a retry budget that does not set an error ...) can leave a partial word
+			errVals := map[ssa.Value]bool{}
+			var growE func(v ssa.Value, d int)
+			growE = func(v ssa.Value, d int) {
+				if errVals[v] || d > 8 {
+					return
+				}
+				errVals[v] = true
+				if refs := v.Referrers(); refs != nil {
+					for _, ref := range *refs {
+						if ph, ok := ref.(*ssa.Phi); ok {
+							growE(ph, d+1)
+						}
+					}
+				}
+			}
+			for _, ref := range *cv.Referrers() {
+				if ex, ok := ref.(*ssa.Extract); ok && ex.Index == 1 {
+					growE(ex, 0)
+				}
+			}
+			strayExit := ""
+			for lb := range loop {
+				ifi := blockIf(lb)
+				if ifi == nil {
+					continue
+				}
+				leaves := false
+				for _, sx := range lb.Succs {
+					if !loop[sx] {
+						leaves = true
+					}
+				}
+				if !leaves {
+					continue
+				}
+				atom, _ := condAtom(ifi.Cond)
+				okExit := false
+				if bo, ok := atom.(*ssa.BinOp); ok {
+					if (sizeVals[bo.X] && bo.Y == countP) || (sizeVals[bo.Y] && bo.X == countP) {
+						okExit = true
+					}
+					if x, _, ok := nilTest(ifi.Cond); ok && errVals[x] {
+						okExit = true
+					}
+				}
+				if !okExit {
+					strayExit = p.IPos(ifi)
+				}
+			}
+			if usesN && usesErr && satisfied && strayExit != "" {
+				r.fail(fname+"#underlying.Read#stray-exit", strayExit, "the refill loop has an exit that is decided neither by the number of bytes obtained versus requested nor by an error of the source: after some sequence of short reads it stops early and leaves a partial 64-bit word in mid-stream")
+			} else if usesN && usesErr && satisfied {
 				r.ok(fname+" refills in a loop around the underlying Read until the requested count is reached or an error occurs", p.IPos(i))
 			} else if usesN && usesErr {
 				r.fail(fname+"#underlying.Read", p.IPos(i), "the refill loop is not controlled by a comparison of the bytes obtained with the bytes requested: it can stop after a short read and leave a partial 64-bit word in mid-stream")
